@@ -875,7 +875,6 @@ def climate_adjacency(S, thr, non_local, coords):
 
 def run_persist_case(case):
     """Save -> Load of SpatialNetwork / GeoNetwork / ClimateNetwork with all companion files."""
-    import pickle
     from pyunicorn.core.network import Network
     from pyunicorn.core.grid import Grid
     from pyunicorn.core.geo_grid import GeoGrid
